@@ -77,6 +77,66 @@ REG = {
    "random constraint trees with boundary candidates, derivation chains and dunder batteries.",
    "Rocq/Coq proof (nested structural induction over constraint trees) + vm_compute correspondence against /repo",
    "Known findings F14b, F14c, F13 (open). Float REAL arithmetic is outside the model."),
+ 'C04': (True,
+   "Coq theorems on the encoder model: permuting SET OF members (resp. SET components) leaves the CER/DER contents and the complete encoding "
+   "unchanged (stable insertion sort by padded octets / by outermost tag, under distinctness of keys; refutation witnesses without it); the "
+   "container models factor DER through abstract content for every reachable state; reads preserve DER. Tied to /repo by pairs of "
+   "construction histories reaching the same abstract value (permutations, explicit/implicit defaults, decode of BER variants, clone, "
+   "interleaved read-only uses) compared on DER and CER bytes and with the model.",
+   "Rocq/Coq proof (permutation invariance of stable sorts, induction over histories) + vm_compute correspondence against /repo",
+   "der(decode(e)) = e and 'decoded from any BER form' are decided per input by the harness; known findings F24 (pinned), F18a, F18d."),
+ 'C08': (True,
+   "The decoder model carries explicit Crash outcomes wherever the code performs an unguarded partial operation; theorems: on a closed stream "
+   "the decoder never waits (always finishes) for every codec/fuel/type/input, the position never passes the input length; the crash-free "
+   "and value-not-placeholder claims are decided per input: all byte strings up to length 2 (3 thorough) over 18 structural octets x 3 "
+   "decoders x 16 guiding types, plus mutants of valid encodings, outcome class compared with the model evaluated in Coq.",
+   "Rocq/Coq proof (totality by structural recursion + induction over interaction trees) + exhaustive/mutation correspondence (vm_compute)",
+   "Known finding F22 (MemoryError for absurd lengths on real file readers). Step bound measured on stream doubles (reads <= 8*len+16)."),
+ 'C09': (True,
+   "An independent reference generator of BER(T, v) (every X.690 choice point random) is validated in Coq against the X.690 reference reader, "
+   "then the implementation and the decoder model decode each drawn encoding; theorems cover the framing-layer choice points (identifier "
+   "forms, over-long lengths with any number of leading zeros, any non-zero TRUE).",
+   "Rocq/Coq proof (framing layer) + reference-validated differential execution (vm_compute)",
+   "The completeness theorem over the whole relation is stated, not yet proved; decided per input."),
+ 'C10': (True,
+   "Theorems over the decoder model for arbitrary input: a SEQUENCE/SET result has every mandatory member (induction over the member loop, "
+   "members decoded by an arbitrary sub-decoder), a definite-length element is accepted only when exactly its length was consumed; per input: "
+   "valid, neighbour-type and mutated encodings - on acceptance independent well-formedness, re-encodability and the decode(encode) fixpoint; "
+   "constrained types (value range, sizes incl. SEQUENCE OF/SET OF).",
+   "Rocq/Coq proof (induction over decoder loops via bind laws) + vm_compute correspondence against /repo",
+   "Full soundness statement staged; known findings F01, F24 (pinned)."),
+ 'C12': (True,
+   "Coq theorems: encoding leaves abstract content/encoding/comparisons of all three container kinds unchanged; k independent step machines "
+   "stepped in any interleaving reach the states they reach alone (induction on the interleaving), instantiated for suspended decoders "
+   "(continuation + stream); model functions are deterministic. Harness: snapshots of values/schemas before and after codec calls, aliasing "
+   "probes, shared-singleton call histories, interleaved streaming decoders, 8 threads, debug logging on/off, each outcome also compared with the model.",
+   "Rocq/Coq proof (product-machine interleaving, reads-inert lemmas) + vm_compute correspondence against /repo",
+   "Threads (sampled schedules) and debug logging are exercised by the harness only; object identity/aliasing has no model."),
+ 'C15': (True,
+   "Computed facts on the dispatch tables regenerated from /repo on every run (every DER string decoder, by tag and by type id, forbids the "
+   "constructed form; DER has no indefinite lengths; DER and CER use the strict BOOLEAN decoder by tag and by type id) + model lemmas saying "
+   "what those entries do at any depth; tied to /repo by every single non-canonical rewrite of every element of generated DER encodings, "
+   "with and without guiding type.",
+   "Rocq/Coq proof by computation over regenerated tables + decoder lemmas + vm_compute correspondence",
+   "The defect this property was written for (F04) is repaired in /repo; a table regression breaks the table theorem directly."),
+ 'C16': (True,
+   "Theorem: the type object a schemaless decode builds carries exactly the wire tags under any stack of EXPLICIT tags (so re-encoding writes "
+   "the same identifier octets); per input: DER/BER/CER encodings of the implicit-free sub-universe decoded without schema by all three "
+   "decoders: value object, byte-identical DER re-encoding, same scalar leaves; model decode+re-encode compared in Coq.",
+   "Rocq/Coq proof (induction over explicit tag stacks) + vm_compute correspondence against /repo",
+   "Full statement staged; known finding F01 (pinned) shows through BER-indefinite/CER inputs."),
+ 'C17': (True,
+   "Coq model of the native encoder/decoder and of the bare-value branch of the BER/CER/DER encoders; theorems by induction on the type: native "
+   "round trip preserves abstract content (ANY included), Python-value encoding equals value-object encoding for every codec/mode incl. absent "
+   "OPTIONAL keys; tied to /repo by random values, every subset of OPTIONAL keys, every CHOICE alternative.",
+   "Rocq/Coq proof (structural induction over the type universe) + vm_compute correspondence against /repo",
+   "REAL other than +-inf/0 goes through Python float: outside the model (compared implementation-to-implementation)."),
+ 'C18': (True,
+   "Coq model of open-type wrapping and of the second decoding pass on top of the codec model; theorems (with the record round trip as an "
+   "explicit premise): raw field = complete inner encoding when resolution is off/unmapped, resolved inner value when on, caller map wins, "
+   "for scalar and SET OF/SEQUENCE OF ANY; refutation witnesses for the F01 class. Tied to /repo over INTEGER/OID-keyed maps x taggings x codecs x options.",
+   "Rocq/Coq proof (conditional on the staged codec round trip) + vm_compute correspondence against /repo",
+   "Premise = codec round trip (C01/C02 stage); known findings F01, F24 (pinned)."),
  'C19': (True,
    "Coq models of SequenceOf/SetOf (sparse dict), Sequence/Set (slot list) and Choice objects as step functions, refinement to plain "
    "list/dict/option specs by induction on the history with one lemma per operation; reads inert; ill-formed operations inert; CHOICE "
